@@ -370,6 +370,81 @@ fn c19_synthetic(c: &mut Case, n_nodes: usize, pools: &[usize], reps: usize, sta
     Ok(())
 }
 
+/// many finish() calls on one graph above boomphf's / any caller-side parallel-split thresholds, from
+/// several concurrent callers and pool sizes: a schedule-dependent mis-pairing that shows in ~1 % of
+/// builds needs hundreds of builds to be observed
+fn c19_repeat(c: &mut Case, n_nodes: usize, rounds: usize, stats: &C19Stats) -> Result<(), String> {
+    type K = Kmer32;
+    let k = 32;
+    let mut base: BaseGraph<SpyK<K>, u32> = BaseGraph::new(true);
+    let mut terms: HashSet<S> = HashSet::new();
+    let mut added = 0u32;
+    while (added as usize) < n_nodes {
+        let len = k + *c.rng.pick(&[0usize, 1, 2]);
+        let s = c.rng.bases(len, 4);
+        let f = s[..k].to_vec();
+        let l = s[len - k..].to_vec();
+        if terms.contains(&f) || terms.contains(&l) {
+            continue;
+        }
+        terms.insert(f);
+        terms.insert(l);
+        base.add(&s, Exts::new(0), added);
+        added += 1;
+    }
+    let seqs: Vec<S> = (0..base.len()).map(|i| base.sequences.get(i).bytes()).collect();
+    // queries: terminal k-mers of a sample of nodes (expected answer known from construction)
+    let sample: Vec<usize> = (0..3000).map(|_| c.rng.below(n_nodes)).collect();
+    DELAY_MASK.store(0, Ordering::SeqCst);
+    let mut bad: Option<String> = None;
+    for round in 0..rounds {
+        let callers = c.rng.range(1, 4);
+        let t = *c.rng.pick(&[2usize, 3, 4, 8, 16]);
+        log_reset();
+        let results: Vec<DebruijnGraph<SpyK<K>, u32>> = std::thread::scope(|sc| {
+            let hs: Vec<_> = (0..callers)
+                .map(|_| {
+                    let b2 = base.clone();
+                    sc.spawn(move || {
+                        let pool = rayon::ThreadPoolBuilder::new().num_threads(t).build().expect("rayon pool");
+                        pool.install(move || b2.finish())
+                    })
+                })
+                .collect();
+            hs.into_iter().map(|h| h.join().expect("finish() panicked")).collect()
+        });
+        let (sig, threads, calls) = interleaving_signature();
+        stats.signatures.lock().unwrap().insert(sig);
+        stats.max_threads.fetch_max(threads, Ordering::SeqCst);
+        c.count("hash_calls_observed_in_parallel_builds", calls);
+        for g in &results {
+            c.count("parallel_builds", 1);
+            c.count("repeated_builds_of_one_large_graph", 1);
+            for &i in &sample {
+                let s = &seqs[i];
+                // stranded graph: the first k-mer of node i is found going Right, the last going Left
+                let a = norm(g.find_link(SpyK(kfrom::<K>(&s[..k])), Dir::Right));
+                let b = norm(g.find_link(SpyK(kfrom::<K>(&s[s.len() - k..])), Dir::Left));
+                if a != Some((i, L, false)) || b != Some((i, R, false)) {
+                    bad = Some(format!(
+                        "round {} ({} concurrent callers, {}-thread pools, {} nodes): find_link for the terminal k-mers of node {} = {:?} / {:?}, expected node {} on both",
+                        round, callers, t, n_nodes, i, a, b, i
+                    ));
+                    break;
+                }
+            }
+            if bad.is_some() {
+                break;
+            }
+        }
+        if let Some(m) = bad {
+            return Err(m);
+        }
+    }
+    c.nontrivial(H::new().u(n_nodes as u64).u(rounds as u64).u(c.idx).get());
+    Ok(())
+}
+
 pub const RULE_C19: &str = "case = BaseGraph (from a hostile read set through filter/prune/compress, or synthetic: N random node sequences over Kmer32 with pairwise distinct terminal k-mers, N from 0 to >= 10^5) whose k-mer type is a spy newtype (Hash logs the calling thread and optionally spins 0-40us); finish() is run inside rayon pools of 1,2,3,4,7,8,15,16 threads (and the global pool), with and without injected delays and busy noise threads, and every answer (find_link for terminal k-mers, their reverse complements, one-base variants, internal k-mers and random k-mers in both directions; edge lists of all nodes; node ids, order, sequences, extensions, payloads) is compared with finish_serial() on a clone and with a terminal index built from the node sequences; distinct = hash(read set) / (N, case); non-trivial = more than one node";
 
 pub fn run_c19(ctx: &Ctx, sizes_override: Option<Vec<usize>>) -> serde_json::Value {
@@ -430,6 +505,11 @@ pub fn run_c19(ctx: &Ctx, sizes_override: Option<Vec<usize>>) -> serde_json::Val
         let reps = if c.lane_miri { 1 } else if n_nodes >= 100_000 { if thorough { 3 } else { 1 } } else { 2 };
         c19_synthetic(c, n_nodes, &pools, reps, st)
     });
+    if !ctx.is_miri() {
+        // 8 rounds (1-3 concurrent finish() calls each) per case, so that a case stays well inside the watchdog
+        let (nodes, cases) = if ctx.lane == "tsan" { (70_000, 1) } else { (70_000, ctx.n(15, 150)) };
+        ctx.run_group_t("repeat_large", cases, false, 1, |c| c19_repeat(c, nodes, 8, st));
+    }
     let nsig = stats.signatures.lock().unwrap().len();
     let maxt = stats.max_threads.load(Ordering::SeqCst);
     ctx.add_count("distinct_interleaving_signatures", nsig as u64);
